@@ -179,7 +179,24 @@ fn exec_img(case: &Value) -> Value {
 fn exec_safe(case: &Value) -> Value {
     let (bw, bh) = (gu(case, "bw"), gu(case, "bh"));
     let vp: Vec<u32> = case["vp"].as_array().unwrap().iter().map(|v| v.as_u64().unwrap() as u32).collect();
-    let to_screen = viewport(pt2(vp[0], vp[1])..pt2(vp[2], vp[3]));
+    let mut to_screen = viewport(pt2(vp[0], vp[1])..pt2(vp[2], vp[3]));
+    if let Some(rq) = case.get("rq").and_then(|v| v.as_array()) {
+        // the viewport as a Camera of the buffer's size derives it from a request that may reach beyond
+        // its frame: what must not be left is the intersection (case.vp)
+        let r = |i: usize| rq[i].as_u64().unwrap() as u32;
+        match guard(|| Camera::new((bw, bh)).viewport((r(0)..r(2), r(1)..r(3))).viewport) {
+            Some(m) => to_screen = m,
+            None => {
+                let mut e = case.clone();
+                let o = e.as_object_mut().unwrap();
+                o.insert("panic".into(), json!(1));
+                o.insert("nan".into(), json!(0));
+                o.insert("sbox".into(), json!([0, 0, 0, 0, 0]));
+                o.insert("tbox".into(), json!([0, 0, 0, 0, 0]));
+                return e;
+            }
+        }
+    }
     let pj = &case["proj"];
     let proj = if gs(pj, "ty") == "persp" {
         perspective(gf(pj, "f") as f32, gf(pj, "aspect") as f32, gf(pj, "near") as f32..gf(pj, "far") as f32)
@@ -344,6 +361,9 @@ fn gen_safe(args: &Args, out: &mut dyn Write) {
             let (x0, y0) = (rng.range(0, bw - 1), rng.range(0, bh - 1));
             [x0, y0, rng.range(x0 + 1, bw), rng.range(y0 + 1, bh)]
         };
+        // every 6th scene: the viewport is what a camera makes of a request reaching beyond its frame
+        let rq = (i % 6 == 5).then(|| [vp[0], vp[1], if vp[2] == bw { bw + [0, 1, 7][(i / 6) % 3] } else { vp[2] },
+                                       if vp[3] == bh { bh + [1, 0, 5][(i / 6) % 3] } else { vp[3] }]);
         let near = *rng.pick(&[0.001f64, 0.01, 0.1, 1.0, 10.0]);
         let far = near * *rng.pick(&[2.0f64, 10.0, 100.0, 1000.0]);
         let persp = rng.chance(3, 4);
@@ -397,8 +417,12 @@ fn gen_safe(args: &Args, out: &mut dyn Write) {
         let ctx = json!({"cull": rng.below(3), "sort": rng.below(3), "test": rng.below(4), "cw": rng.below(2),
             "dw": rng.below(2), "disc": rng.below(2), "kind": if rng.chance(1, 4) { "col" } else { "fb" }});
         let ptsb: Vec<[String; 3]> = pts.iter().map(|p| [0, 1, 2].map(|j| format!("{:08x}", p[j].to_bits()))).collect();
-        writeln!(out, "{}", json!({"k": format!("f{}-{}", args.seed, i), "op": "safe", "bw": bw, "bh": bh, "vp": vp,
-            "proj": proj, "pts": ptsb, "faces": faces, "ctx": ctx})).unwrap();
+        let mut c = json!({"k": format!("f{}-{}", args.seed, i), "op": "safe", "bw": bw, "bh": bh, "vp": vp,
+            "proj": proj, "pts": ptsb, "faces": faces, "ctx": ctx});
+        if let Some(rq) = rq {
+            c["rq"] = json!(rq);
+        }
+        writeln!(out, "{c}").unwrap();
     }
 }
 
